@@ -28,6 +28,8 @@ type inputs struct {
 	nexus    string // `multi` in Nexus format with a TRANSLATE block
 	chainmap string // a rename map that permutes the tip names (every new name is also an old name)
 	numeric  string // several trees whose tip names are the numbers 0..n-1, in shuffled order
+	statesCI string // tip states that differ only by case (A / a / B / b): ties for any case-insensitive ordering
+	dupmap   string // a rename map whose lines share their second column (non-injective when read with --revert)
 }
 
 func toNewick(n *core.N) string {
@@ -234,6 +236,22 @@ func genInputs(c *core.Ctx, rep int) *inputs {
 		nb2.WriteString(toNewick(m) + "\n")
 	}
 	in.numeric = nb2.String()
+	{
+		ci := []string{"A", "a", "B", "b"}
+		var sb2 strings.Builder
+		for _, t := range in.tips {
+			fmt.Fprintf(&sb2, "%s\t%s\n", t, ci[g.Intn(len(ci))])
+		}
+		in.statesCI = sb2.String()
+		// every tip is the second column of 3 lines: read with -r the LAST line must win, whatever the run
+		var dm strings.Builder
+		for k := 0; k < 3; k++ {
+			for i, t := range in.tips {
+				fmt.Fprintf(&dm, "n%d_%d\t%s\n", k, i, t)
+			}
+		}
+		in.dupmap = dm.String()
+	}
 	in.outgroup = []string{in.tips[0], in.tips[1]}
 	in.nexus = toNexus(in.multi)
 	return in
@@ -268,6 +286,8 @@ func cliTemplates(c *core.Ctx, in *inputs) []*request {
 	add("rename-map-chained", false, map[string]string{"tree": in.tree, "map": in.chainmap}, "rename", "-i", "@in:tree@", "-m", "@in:map@")
 	add("rename-map-chained-multi", false, map[string]string{"tree": in.multi, "map": in.chainmap}, "rename", "-i", "@in:tree@", "-m", "@in:map@", "-r")
 	add("reformat-nexus-translate-numeric", false, map[string]string{"tree": in.numeric}, "reformat", "nexus", "-i", "@in:tree@", "--translate")
+	add("rename-map-revert-noninjective", false, map[string]string{"tree": in.tree, "map": in.dupmap}, "rename", "-i", "@in:tree@", "-m", "@in:map@", "-r")
+	add("acr-case-states", false, map[string]string{"tree": in.tree, "states": in.statesCI}, "acr", "-i", "@in:tree@", "--states", "@in:states@", "--algo", "downpass", "--out-states", "@out:states@")
 	add("rename-map-revert", false, map[string]string{"tree": in.tree, "map": in.mapfile}, "rename", "-i", "@in:tree@", "-m", "@in:map@", "-r")
 	add("rename-regexp", false, T, "rename", "-i", "@in:tree@", "-e", "t(\\d+)", "-b", "leaf$1", "-m", "@out:map@")
 	add("rename-quotes", false, T, "rename", "-i", "@in:tree@", "--add-quotes", "-m", "@out:map@")
@@ -350,6 +370,17 @@ func cliTemplates(c *core.Ctx, in *inputs) []*request {
 	add("draw-png", false, T, "draw", "png", "-i", "@in:tree@", "-o", "@out:png@", "-w", "200", "-H", "200")
 	add("draw-cyjs", false, T, "draw", "cyjs", "-i", "@in:tree@", "-o", "@out:html@")
 	add("sample-multi-nexus", false, M, "sample", "-i", "@in:tree@", "-n", "3", "-o", "@out:trees@")
+	// the remaining runnable commands of the live command tree
+	add("brlen-add", false, T, "brlen", "add", "-i", "@in:tree@", "-l", "0.25")
+	add("brlen-cut", false, T, "brlen", "cut", "-i", "@in:tree@", "-l", "2")
+	add("brlen-set", false, T, "brlen", "set", "-i", "@in:tree@", "-l", "0.5")
+	add("support-round", false, T, "support", "round", "-i", "@in:tree@", "-p", "1")
+	add("resolve-named", false, map[string]string{"tree": in.named}, "resolve", "named", "-i", "@in:tree@")
+	add("version", false, nil, "version")
+	add("support-booster", false, cmp, "compute", "support", "booster", "-i", "@in:tree@", "-b", "@in:multi@", "-t", nthreads, "--silent", "-o", "@out:tree@", "-r", "@out:raw@")
+	add("support-classical", false, cmp, "compute", "support", "classical", "-i", "@in:tree@", "-b", "@in:multi@", "-t", nthreads, "--silent", "-o", "@out:tree@")
+	add("support-tbe-moved", false, cmp, "compute", "support", "tbe", "-i", "@in:tree@", "-b", "@in:multi@", "-t", "1", "--silent", "-o", "@out:tree@", "--moved-taxa", "--per-branches", "--dist-cutoff", "0.9")
+	add("roccurve", false, map[string]string{"tree": in.multi, "true": in.tree}, "compute", "roccurve", "-i", "@in:tree@", "-r", "@in:true@", "-t", nthreads, "-s", "0.25")
 	// generators
 	add("gen-yule", false, nil, "generate", "yuletree", "-l", "12", "-n", "3")
 	add("gen-yule-unrooted", false, nil, "generate", "yuletree", "-l", "12", "-n", "2", "-r=false")
